@@ -71,8 +71,8 @@ def main():
             meta = json.load(open(meta_p))
             if args.only and name not in args.only.split(','):
                 continue
-            props = [meta['property']]
-            if args.props and not set(props) & set(args.props.split(',')):
+            props = [meta['property']] + list(meta.get('also_checked_by', []))
+            if args.props and not set(props[:1]) & set(args.props.split(',')):
                 continue
             if args.all_props:
                 props = ['C07', 'C16', 'C17', 'C18']
